@@ -8,6 +8,7 @@
 use std::{
     fmt,
     hash::Hash,
+    mem::ManuallyDrop,
     ops,
     sync::{Arc, PoisonError, TryLockError, TryLockResult, Weak},
 };
@@ -39,7 +40,11 @@ pub struct SharedObservable<T, L: Lock = SyncLock> {
     state: Arc<L::RwLock<ObservableState<T>>>,
     /// Ugly hack to track the amount of clones of this observable,
     /// *excluding subscribers*.
-    _num_clones: Arc<()>,
+    ///
+    /// Wrapped in `ManuallyDrop` so that `Drop` can release it with
+    /// `Arc::into_inner`, which tells exactly one of several concurrently
+    /// dropped clones that it was the last one.
+    _num_clones: ManuallyDrop<Arc<()>>,
 }
 
 impl<T> SharedObservable<T> {
@@ -336,7 +341,7 @@ impl<T: Send + Sync + 'static> SharedObservable<T, AsyncLock> {
 
 impl<T, L: Lock> SharedObservable<T, L> {
     pub(crate) fn from_inner(state: Arc<L::RwLock<ObservableState<T>>>) -> Self {
-        Self { state, _num_clones: Arc::new(()) }
+        Self { state, _num_clones: ManuallyDrop::new(Arc::new(())) }
     }
 
     /// Get the number of `SharedObservable` clones.
@@ -397,7 +402,10 @@ impl<T, L: Lock> SharedObservable<T, L> {
 
 impl<T, L: Lock> Clone for SharedObservable<T, L> {
     fn clone(&self) -> Self {
-        Self { state: self.state.clone(), _num_clones: self._num_clones.clone() }
+        Self {
+            state: self.state.clone(),
+            _num_clones: ManuallyDrop::new(Arc::clone(&self._num_clones)),
+        }
     }
 }
 
@@ -427,8 +435,15 @@ where
 impl<T, L: Lock> Drop for SharedObservable<T, L> {
     fn drop(&mut self) {
         // Only close the state if there are no other clones of this
-        // `SharedObservable`.
-        if Arc::strong_count(&self._num_clones) == 1 {
+        // `SharedObservable`. Checking `strong_count == 1` and releasing the
+        // count later would not be atomic: two clones dropped at the same
+        // time could both see 2 and never close, and a concurrent
+        // `WeakObservable::upgrade` could revive a closed state.
+        // `Arc::into_inner` returns `Some` for exactly one owner.
+        //
+        // SAFETY: `_num_clones` is not used again after this.
+        let num_clones = unsafe { ManuallyDrop::take(&mut self._num_clones) };
+        if Arc::into_inner(num_clones).is_some() {
             // If there are no other clones, obtaining a read lock can't fail.
             L::read_noblock(&self.state).close();
         }
@@ -458,7 +473,7 @@ impl<T, L: Lock> WeakObservable<T, L> {
         #[cfg(feature = "__verif_hooks")]
         crate::verif::pause("upgrade:between");
         let _num_clones = Weak::upgrade(&self._num_clones)?;
-        Some(SharedObservable { state, _num_clones })
+        Some(SharedObservable { state, _num_clones: ManuallyDrop::new(_num_clones) })
     }
 }
 
